@@ -89,7 +89,11 @@ LEVEL_TEXT = (
     "conversions: theorems give the explicit order-preserving index map from stored nets to circuit nets with matching weights and "
     "pins and lift the least-squares statements to the circuit's own weights; tied by an exact net-list correspondence on random "
     "circuits with degenerate nets interleaved, at small coordinates and at 2^22..2^26, and checked on the real solver through "
-    "the Circuit path (oracle CL).")
+    "the Circuit path (oracle CL). One case in three of that net-list correspondence and of CL hands the object its nets through a "
+    "history of public net-setter calls on one Circuit (setNets with and without the weights argument incl. lists of another size, "
+    "addNet before / after setNets, setNetWeights): the Lean model and the least-squares optimum are those of the nets the calls "
+    "document, and the object's NetModel and its solves (initial and one refinement, against weights times 2^k) must equal those of "
+    "a freshly built twin (oracle CH; a failing history is recorded in the replay and re-run alone by --replay).")
 LEVEL_NOTE = (
     "Partial: weight arithmetic over Rat, not floats (bounded by the approximate stream only on inputs with exact positions); CG "
     "convergence and Eigen are outside the proof (oracle only); placeGlobal end-to-end (beyond xTopology/yTopology and the single "
